@@ -39,7 +39,11 @@ REPO = os.environ.get("NIMA_REPO", "/repo")
 
 
 def _prove_worker(args):
-    name, tier = args
+    if len(args) == 2:
+        name, tier = args
+        part, parts = 0, 1
+    else:
+        name, tier, part, parts = args
     t0 = time.time()
     try:
         from pvc.run import load_contracts
@@ -53,12 +57,40 @@ def _prove_worker(args):
         else:
             c = reg[name]
             res = verify_contract(c, reg)
-        timeout = {"quick": 10000, "thorough": 60000}[tier]
+        timeout = {"quick": 6000, "thorough": 60000}[tier]
         timeout = max(timeout, getattr(c, "timeout_ms", 0) if tier == "thorough" else 0)
         groups = {}
         order = []
-        for ob in res.obligations:
-            r = discharge(ob, timeout_ms=timeout, cvc5_timeout_s=20 if tier == "quick" else 90)
+        for ob_index, ob in enumerate(res.obligations):
+            if ob_index % parts != part:
+                continue
+            r = discharge(ob, timeout_ms=timeout, cvc5_timeout_s=10 if tier == "quick" else 90)
+            if r["status"] == "undecided" and not ob.must_fail and c.kind == "function" and name != "spec-lemmas":
+                # quantified VC: look for a candidate counter-model with quantifiers expanded, build real
+                # objects from it and replay natively; only a native failure turns it into a refutation
+                try:
+                    from pvc.solve import bounded_countermodel, has_quantifier
+
+                    if has_quantifier(list(ob.assumptions) + [ob.goal]):
+                        m, why = bounded_countermodel(ob, K=3, timeout_ms=15000)
+                        if m is not None:
+                            from harness.concretize import inputs_from_model
+                            from harness.native import check_native
+
+                            inputs, desc = inputs_from_model(c, m, ob.inputs)
+                            out = check_native(c, inputs)
+                            if out.pre_ok and not out.ok and out.error is None:
+                                r = dict(status="refuted", backend="z3-bounded+native", seconds=r["seconds"],
+                                         model={"objects": {str(k): v for k, v in desc.items()},
+                                                "scalars": {k: v for k, v in inputs.items() if isinstance(v, (str, int, bool))},
+                                                "native": out.describe()},
+                                         reason="candidate model (quantifiers expanded, lengths <= 3) reproduced natively")
+                            else:
+                                r["reason"] = (r.get("reason", "") + f"; bounded candidate model did not reproduce natively ({out.describe()[:80]})")[:300]
+                        else:
+                            r["reason"] = (r.get("reason", "") + f"; bounded counter-model search: {why}")[:300]
+                except Exception as e:
+                    r["reason"] = (r.get("reason", "") + f"; counter-model search failed: {type(e).__name__}: {e}")[:300]
             key = (ob.kind, ob.label, ob.must_fail)
             if key not in groups:
                 groups[key] = dict(kind=ob.kind, label=ob.label, must_fail=ob.must_fail, aux=ob.aux, line=ob.line,
@@ -93,7 +125,7 @@ def _prove_worker(args):
             g["models"] = g["models"][:3]
             g["reasons"] = g["reasons"][:2]
             obs.append(g)
-        return dict(name=name, target=c.target, status=res.status, error=res.error, paths=res.paths,
+        return dict(name=name, part=part, parts=parts, target=c.target, status=res.status, error=res.error, paths=res.paths,
                     src_hash=res.src_hash, line=res.line, seconds=time.time() - t0, exits=res.exits,
                     assumptions=sorted(res.assumptions), inlined=sorted(res.inlined), obligations=obs,
                     props=list(c.props))
@@ -104,12 +136,46 @@ def _prove_worker(args):
 
 
 def prove(names, tier, jobs=None):
+    """Verify the named contracts; the obligations of each contract are split over several worker
+    processes (VC generation is cheap and deterministic, so every worker regenerates and takes its slice)."""
     if not names:
         return []
-    jobs = jobs or min(16, max(1, len(names)))
+    parts = max(1, min(8, 16 // max(1, len(names))))
+    tasks = [(n, tier, k, parts) for n in names for k in range(parts)]
     ctx = mp.get_context("fork")
-    with ctx.Pool(jobs) as pool:
-        return pool.map(_prove_worker, [(n, tier) for n in names], chunksize=1)
+    with ctx.Pool(min(16, len(tasks))) as pool:
+        raw = pool.map(_prove_worker, tasks, chunksize=1)
+    merged = {}
+    for r in raw:
+        m = merged.get(r["name"])
+        if m is None:
+            merged[r["name"]] = r
+            continue
+        m["seconds"] = max(m["seconds"], r["seconds"])
+        if r["status"] != "ok" and m["status"] == "ok":
+            m["status"], m["error"] = r["status"], r["error"]
+        m["assumptions"] = sorted(set(m["assumptions"]) | set(r["assumptions"]))
+        by = {(o["kind"], o["label"], o["must_fail"]): o for o in m["obligations"]}
+        for o in r["obligations"]:
+            key = (o["kind"], o["label"], o["must_fail"])
+            if key not in by:
+                m["obligations"].append(o)
+                by[key] = o
+                continue
+            a = by[key]
+            a["paths"] += o["paths"]
+            a["seconds"] += o["seconds"]
+            for b, k in o["backends"].items():
+                a["backends"][b] = a["backends"].get(b, 0) + k
+            a["models"] = (a["models"] + o["models"])[:3]
+            a["reasons"] = (a["reasons"] + o["reasons"])[:2]
+            order = {"vacuous": 0, "ok-refuted": 3, "discharged": 0, "undecided": 1, "refuted": 2}
+            if a["must_fail"]:
+                if o["status"] == "ok-refuted":
+                    a["status"] = "ok-refuted"
+            elif order[o["status"]] > order[a["status"]]:
+                a["status"] = o["status"]
+    return [merged[n] for n in names if n in merged]
 
 
 # ---------------------------------------------------------------------------------------------
@@ -132,17 +198,18 @@ def _native_worker(args):
         dom = c.domain(tier) if callable(c.domain) else default_domain(c, tier)
         for inputs in dom:
             n += 1
+            shown = _jsonable(inputs)
             out = check_native(c, inputs)
             if not out.pre_ok:
                 continue
             checked += 1
             if len(samples) < 3 and checked % 97 == 1:
-                samples.append({"inputs": _jsonable(inputs), "outcome": out.kind})
+                samples.append({"inputs": shown, "outcome": out.kind})
             if out.error is not None:
                 return dict(name=name, skipped=None, harness_error=f"{out.error} on {inputs!r}", generated=n, checked=checked,
                             fails=[], samples=samples, exhaustive=False, seconds=time.time() - t0)
             if not out.ok:
-                fails.append({"inputs": _jsonable(inputs), "observed": out.describe()})
+                fails.append({"inputs": shown, "observed": out.describe(), "failed": list(out.failed)})
                 if len(fails) >= 5:
                     exhausted = False
                     break
@@ -283,7 +350,7 @@ def run_property(prop_id, tier, seed):
             crashed.append(dict(name=r["name"], error="native contract evaluation failed: " + r["harness_error"]))
         for f in r["fails"]:
             violations.append(dict(source="native-contract", contract=r["name"], target=reg[r["name"]].target,
-                                   inputs=f["inputs"], observed=f["observed"]))
+                                   inputs=f["inputs"], observed=f["observed"], failed=f.get("failed", [])))
     stand_in = None
     if P.get("bounded"):
         mod = importlib.import_module(P["bounded"])
@@ -305,6 +372,9 @@ def run_property(prop_id, tier, seed):
             failing = None
             if c is not None and c.kind == "function":
                 for m in v["models"]:
+                    if isinstance(m, dict) and "native" in m:
+                        failing = dict(inputs=m, observed=m["native"], origin="bounded counter-model concretised into real objects")
+                        break
                     inputs = _inputs_from_model(c, m)
                     if inputs is None:
                         continue
